@@ -78,6 +78,11 @@ def generate(rng, tier, idx):
         # the file changed size between fstat() and the read: the reported size hint is off, the content is what is read
         sc['fstat_skew'] = rng.choice([-1, 1, -(n // 2), 100, n, 65536, -65536])
     sc['rehash'] = rng.random() < 0.3
+    if api in ('hash_path', 'hash_file', 'metadata', 'verify', 'update') and rng.random() < 0.1:
+        # storage fault: the k-th raw read of the file fails with EIO (k >= 2: after data has been delivered); the
+        # error has to surface, never the digests of the prefix
+        sc['read_fault'] = rng.choice([2, 2, 3, 4, 6])
+        sc['rehash'] = False
     if n > 70000 and sc['chunks'] in ('tiny', 1, 3):
         sc['chunks'] = 'mixed'
     return sc
@@ -159,6 +164,7 @@ def execute(sc):
         path = w.path('f')
         skew = sc.get('fstat_skew')
         seam = Seam(w.root, order_key=sc['order_key'], read_chunks=sc['chunks'],
+                    faults=([{'kinds': ['read'], 'path': 'f', 'nth': sc['read_fault'], 'errno': 'EIO'}] if sc.get('read_fault') else None),
                     zero_size=['f'] if sc.get('zero_size') else None,
                     size_override=({'f': max(1, n + skew)} if (skew and api == 'metadata' and not sc.get('zero_size')) else None))
         extra_short = 0
@@ -330,6 +336,13 @@ def execute(sc):
                                                'does not describe the new content' % n, sig='hash_path'))
         if seam.stats.get('leaked_fds'):
             pass
+    if sc.get('read_fault') and sum(f_.get('_fired', 0) for f_ in seam.faults):
+        surfaced = any(('EIO' in v_['detail'] or 'cli-exit' in v_['detail'] or 'Errno 5' in v_['detail']) for v_ in violations)
+        if not surfaced:
+            violations = [viol('hash.read-error-swallowed', '%s: read #%d of the file failed with EIO, yet the call reported a result (len %d, hint %s)' % (
+                api, sc['read_fault'], n, sc['hint']), sig=api)]
+        else:
+            violations = []
     nontrivial = (seam.stats.get('short_reads', 0) + extra_short > 0 or n in THRESH
                   or sc['hint'] != 'true' or api == 'unsupported')
     res = mk_result([seam], violations, nontrivial, outcome={'api': api, 'n': n, 'viol': len(violations)}, ops=1,
